@@ -1,7 +1,7 @@
 SPECIFICATION Spec
 CONSTANTS
   NPaths = 3
-  Contents = {"GInt", "GStr", "ReqB", "Mod", "Enum", "UseFoo"}
+  Contents = {"GInt", "GStr", "Mod", "Enum", "UseFoo"}
   Ops = {"update", "unset", "remove", "reindex"}
   MaxSteps = 3
   EditDist = 3
